@@ -440,6 +440,7 @@ def span_matches(raw, us):
 
 # --------------------------------------------------------------------------- run
 def run(ctx):
+    C.config_matrix(ctx["report"], ctx["rundir"], "C17", ["#2024-02-29# + 1", "ceil(#2024-02-29T10:00#) - floor(#2024-02-29T10:00#)", "#2024-02-29T10:00:00.5# - #2024-02-29T10:00:00#", "#2024-02-29T10:00:00.5# > #2024-02-29T10:00:00.25#", "(#2024-01-01# + (-3/2) s) - #2024-01-01#", "floor(#2024-01-01T23:00:00+00:00#); floor(#2024-01-02T01:00:00+02:00#)", "year(#2024-10#)", "#2024-01-01# + 5 Hz"])
     # --- coordinator: an instant held in a variable is unchanged by floor, ceil and arithmetic on it
     _items = []
     for _d in ("#2024-02-29#", "#2023-12-31#", "#2024-01-31T00:00:00#", "#2024-03-10T12:00#"):
